@@ -1,6 +1,7 @@
 package main
 
 import (
+	"strings"
 	"bytes"
 	"crypto/cipher"
 	"crypto/rand"
@@ -96,9 +97,22 @@ func c20PkgOps(c *Ctx) {
 				certs [][]byte
 			}
 			items := make([]item, G)
+			// every other round all goroutines work on keys whose public x or y has leading zero bytes (and small scalars):
+			// the fixed-width encoders then run their padding paths on every call
+			var special []testKey
+			if round%2 == 1 {
+				for _, k := range keyClasses(c.Rng(fmt.Sprintf("pkgkeys%d", round)), 0, true) {
+					if strings.Contains(k.cls, "lz") {
+						special = append(special, k)
+					}
+				}
+			}
 			for g := range items {
 				it := &items[g]
 				it.key = newSM2Key(r)
+				if len(special) > 0 {
+					it.key = special[g%len(special)].priv()
+				}
 				it.msg = r.Bytes(40 + g)
 				it.sig, _ = it.key.Sign(r, it.msg, nil)
 				it.ct, _ = sm2.Encrypt(&it.key.PublicKey, it.msg, r, sm2.C1C3C2)
@@ -314,14 +328,34 @@ func runC20FirstUseChild(c *Ctx) {
 func c20SharedConfig(c *Ctx) {
 	rep := c.Rep
 	r := c.Rng("sharedcfg")
-	pki, err := newTLSPKI(r, false)
+	pki, err := newTLSPKI(r, true)
 	if err != nil {
 		return
 	}
 	for _, mode := range []string{"gm", "tls"} {
-		for _, N := range []int{8, c.Q(24, 48)} {
-			scfg := &gmtls.Config{Time: func() timeT { return fixedNow }, ClientCAs: pki.pool}
+		for ni, N := range []int{8, c.Q(24, 48), 16} {
+			// a fresh client-CA pool per configuration (whatever a pool computes lazily is computed for the first time by
+			// the simultaneous first handshakes), and client certificates requested in two of the three configurations
+			freshCAs := gx509.NewCertPool()
+			freshCAs.AddCert(pki.root)
+			if pki.other != nil {
+				freshCAs.AddCert(pki.other.root)
+			}
+			for _, extra := range []gmtls.Certificate{pki.rsaCert, pki.ecCert} {
+				if cc, e := gx509.ParseCertificate(extra.Certificate[0]); e == nil {
+					freshCAs.AddCert(cc)
+				}
+			}
+			scfg := &gmtls.Config{Time: func() timeT { return fixedNow }, ClientCAs: freshCAs}
 			ccfg := &gmtls.Config{ServerName: tlsServerName, Time: func() timeT { return fixedNow }, ClientSessionCache: gmtls.NewLRUClientSessionCache(4)}
+			wantClientCert := ni != 0
+			if wantClientCert {
+				scfg.ClientAuth = gmtls.RequestClientCert
+				ccfg.Certificates = []gmtls.Certificate{pki.cliSig, pki.cliEnc}
+				if mode != "gm" {
+					ccfg.Certificates = []gmtls.Certificate{pki.rsaCert}
+				}
+			}
 			if mode == "gm" {
 				scfg.GMSupport, scfg.Certificates = gmtls.NewGMSupport(), []gmtls.Certificate{pki.sig, pki.enc}
 				scfg.CipherSuites = []uint16{gmtls.GMTLS_ECC_SM4_CBC_SM3, gmtls.GMTLS_ECC_SM4_GCM_SM3}
@@ -367,6 +401,11 @@ func c20SharedConfig(c *Ctx) {
 						atomic.AddInt32(&failed, 1)
 						rep.Violation("C20/shared-config/handshake-fails-under-concurrency/"+mode, fmt.Sprintf("%v / %v", out.cli.err, out.srv.err), w)
 						return
+					}
+					// sequential counterpart: a server that requests a certificate from a client that has one (issued by a CA
+					// on the server's list) sees it
+					if wantClientCert && len(out.srv.state.PeerCertificates) == 0 {
+						rep.Violation("C20/shared-config/server-sees-no-client-certificate-under-concurrency/"+mode, "single-threaded, the same configuration always yields the client certificate", w)
 					}
 					if out.cli.state.DidResume != out.srv.state.DidResume || out.cli.state.CipherSuite != out.srv.state.CipherSuite || !sameStrings(out.cli.ekm, out.srv.ekm) {
 						rep.Violation("C20/shared-config/ends-disagree/"+mode, "", w)
